@@ -72,8 +72,13 @@ def hierarchy_stream(res, rng, n):
             lid = {id(l): i for i, l in enumerate(sysobj.allLeaves())}
             pairs = [(did[id(spec_driver(l))], lid[id(l)]) for l in sysobj.allLeaves() if l.isClockable()]
             reqs.append('group | ' + ','.join(f'{d}:{k}' for d, k in pairs))
-            exp.append(';'.join(f"{did[id(drv)]}={','.join(str(lid[id(o)]) for o in ds.clockables)}"
-                                for drv, ds in sim.clockDrivers.items()))
+            try:
+                exp.append(';'.join(f"{did[id(drv)]}={','.join(str(lid[id(o)]) for o in ds.clockables)}"
+                                    for drv, ds in sim.clockDrivers.items()))
+            except Exception as e_:
+                # the simulator no longer groups its clockable leaves by ClockDriver object: nothing to compare with the model here
+                # (reported as a disagreement); the gating oracle on the random designs decides the property on the implementation
+                exp.append(f'E:{type(e_).__name__}')
             res.count(('group', tuple(pairs)))
     outs = run_driver('Drv/C10.lean', reqs)
     for rq, a, e in zip(reqs, outs, exp):
